@@ -87,6 +87,9 @@ Lemma step_PWho c h from n idn seq cd now d :
    outs (handle_challenge c (tick c h now d) from n seq cd now)).
 Proof. unfold step, tick. reflexivity. Qed.
 
+(* from here on the implicit tick is an abstract state transformer *)
+Global Opaque tick.
+
 Lemma outs_after (P : output -> Prop) s0 s' o :
   Forall quiet_out (outs s0) -> OutsExt P s0 s' -> In o (outs s') -> quiet_out o \/ P o.
 Proof.
@@ -383,14 +386,14 @@ Corollary request_delivered c h from src n aad ct now d h' out na rid body :
   In (OEvent (HRequest na rid body)) out ->
   na = (src, from) /\ Delivered (hs (tick c h now d)) (src, from) n aad ct (MReq rid body).
 Proof.
-  intros Hs Hin. destruct (delivered_needs_session _ _ _ _ _ _ _ _ _ _ _ _ Hs Hin) as [H | H]; cbn in H; tauto.
+  intros Hs Hin. destruct (delivered_needs_session _ _ _ _ _ _ _ _ _ _ _ _ Hs Hin) as [H | H]; cbn [quiet_out msg_out_ok] in H; tauto.
 Qed.
 Corollary response_delivered c h from src n aad ct now d h' out na rid rb :
   step c h (EvInbound from (PMsg src n aad ct)) now d = (h', out) ->
   In (OEvent (HResponse na rid rb)) out ->
   na = (src, from) /\ Delivered (hs (tick c h now d)) (src, from) n aad ct (MResp rid rb).
 Proof.
-  intros Hs Hin. destruct (delivered_needs_session _ _ _ _ _ _ _ _ _ _ _ _ Hs Hin) as [H | H]; cbn in H; tauto.
+  intros Hs Hin. destruct (delivered_needs_session _ _ _ _ _ _ _ _ _ _ _ _ Hs Hin) as [H | H]; cbn [quiet_out msg_out_ok] in H; tauto.
 Qed.
 
 (* an attributing output of a message packet needs a ciphertext under a session key of exactly
@@ -401,7 +404,7 @@ Lemma attributing_needs_delivery c h from src n aad ct now d h' out o :
 Proof.
   intros Hs Hin Ha. destruct (delivered_needs_session _ _ _ _ _ _ _ _ _ _ _ _ Hs Hin) as [H | H].
   - exfalso. exact (quiet_not_attributing _ H Ha).
-  - destruct o as [[e a inc | na rid body | na rid rb | na n0 | rid err | e a nid] | dst p]; cbn in H, Ha;
+  - destruct o as [[e a inc | na rid body | na rid rb | na n0 | rid err | e a nid] | dst p]; cbn [msg_out_ok attributing] in H, Ha;
       try contradiction.
     + destruct H as [_ [_ [_ [rid [rb H]]]]]. eauto.
     + destruct H as [_ H]. eauto.
@@ -416,7 +419,7 @@ Theorem tamper_rejected c h from src n aad ct now d h' out o :
   step c h (EvInbound from (PMsg src n aad ct)) now d = (h', out) -> In o out -> attributing o ->
   exists k m, ct = CEnc k n m aad.
 Proof.
-  intros Hs Hin Ha. destruct (attributing_needs_delivery _ _ _ _ _ _ _ _ _ _ _ Hs Hin Ha) as [m [se [k [_ [_ H]]]]].
+  intros Hs Hin Ha. destruct (attributing_needs_delivery _ _ _ _ _ _ _ _ _ _ _ _ Hs Hin Ha) as [m [se [k [_ [_ H]]]]].
   eauto.
 Qed.
 
@@ -425,7 +428,7 @@ Corollary tamper_rejected_cases c h from src n aad ct now d h' out o :
   (exists j, ct = CJunk j) \/ (exists k n' m a', ct = CEnc k n' m a' /\ (n' <> n \/ a' <> aad)) ->
   ~ attributing o.
 Proof.
-  intros Hs Hin Hbad Ha. destruct (tamper_rejected _ _ _ _ _ _ _ _ _ _ _ Hs Hin Ha) as [k [m E]].
+  intros Hs Hin Hbad Ha. destruct (tamper_rejected _ _ _ _ _ _ _ _ _ _ _ _ Hs Hin Ha) as [k [m E]].
   destruct Hbad as [[j Ej] | [k' [n' [m' [a' [E' Hne]]]]]]; [congruence |].
   rewrite E in E'. inversion E'; subst. destruct Hne; congruence.
 Qed.
@@ -438,7 +441,7 @@ Theorem other_address_other_session c h from src n aad ct now d h' out o :
   In o out -> ~ attributing o.
 Proof.
   intros Hs Hnone Hin Ha.
-  destruct (attributing_needs_delivery _ _ _ _ _ _ _ _ _ _ _ Hs Hin Ha) as [m [se [k [H _]]]]. congruence.
+  destruct (attributing_needs_delivery _ _ _ _ _ _ _ _ _ _ _ _ Hs Hin Ha) as [m [se [k [H _]]]]. congruence.
 Qed.
 
 (* ------------------------------------------------------------------------------------------ *)
@@ -557,7 +560,7 @@ Corollary delivered_under_key_for c h from src n aad ct now d h' out o :
   exists k m, ct = CEnc k n m aad /\ key_for c src k.
 Proof.
   intros Hi Hs Hin Ha.
-  destruct (attributing_needs_delivery _ _ _ _ _ _ _ _ _ _ _ Hs Hin Ha) as [m [se [k [Hg [Hk E]]]]].
+  destruct (attributing_needs_delivery _ _ _ _ _ _ _ _ _ _ _ _ Hs Hin Ha) as [m [se [k [Hg [Hk E]]]]].
   exists k, m. split; [exact E |].
   assert (Hi1 : KeyInv c (hs (tick c h now d))) by (eapply SessD_KeyInv; [exact Hi | apply tick_SessD]).
   apply alist_get_In in Hg. apply (Hi1 _ _ Hg k). unfold sess_keys.
